@@ -1,4 +1,5 @@
 import OdxVerif.Model.DescSexp
+import OdxVerif.Spec.Layout
 /-! line-protocol driver for the codec family (C01–C05, C08, C17); grammar in harness/odxgen/SEXP.md -/
 open OdxVerif OdxVerif.Codec OdxVerif.Sexp
 
@@ -66,6 +67,13 @@ def handle (sx : Sexp) : String :=
   match sx with
   | .list (.atom "encode" :: desc :: pv :: rest) => handleEncode desc pv rest
   | .list (.atom "decode" :: desc :: msg :: rest) => handleDecode desc msg rest
+  | .list (.atom "layout" :: desc :: pv :: rest) =>
+    (match parseComposite desc, parsePVal pv with
+     | some (bs, ps), some v =>
+       (match Spec.layoutMessage bs ps v (trigOf rest) with
+        | some (pdu, ov) => s!"(ok {hexAtom pdu} (overlap {if ov then "t" else "f"}))"
+        | none => "(unsupported)")
+     | _, _ => "(bad-args)")
   | .list [.atom "staticlen", desc] =>
     (match parseComposite desc with
      | some (bs, ps) => (match (Dop.struct bs ps).staticBitLen with | some n => s!"(some {n})" | none => "(none)")
